@@ -1,6 +1,6 @@
 # props/C06.py — fixed_vector stays inside its storage and never exposes unfilled slots
 import itertools
-from props.vec_common import forms_cases, large_cases, ctor_cases, before_begin_cases, alias_cases, VecCheck, alphabet, exhaustive, fault_cases, random_case, malformed_cases, small_alphabet_cases
+from props.vec_common import ctor_fault_cases, forms_cases, large_cases, ctor_cases, before_begin_cases, alias_cases, VecCheck, alphabet, exhaustive, fault_cases, random_case, malformed_cases, small_alphabet_cases
 
 
 class C06(VecCheck):
@@ -30,7 +30,7 @@ class C06(VecCheck):
             "after every step (so all prefixes are covered); (ii') erase / emplace / range insert at begin()-1 and begin()-2 (= end()-1, end()-2 on an empty vector) from every state two operations reach, capacities 0..3 (data() of a capacity-0 vector is a valid non-null pointer; moved-from objects are never used); (ii) fault enumeration: every element-assigning operation x every fault position "
             "0..capacity+1 x every fill level x a follow-up operation, copyable-throwing and move-only-throwing element types; (iii) random "
             "sequences of length 30 over three objects, capacities 0..5, values 1..9, ~3% malformed operations, 15% fault plans in the throwing "
-            "variants; (iii') every public constructor with fitting and non-fitting arguments: fixed_vector(capacity, iterable) with iterables of length 0..capacity+3 from std::vector, std::list, std::array, std::initializer_list and another fixed_vector, into an empty slot and over an existing object, for the counting, the throwing (every fault position) and the PLAIN trivially copyable std::int64_t element type (variant P, which also runs the exhaustive stream to depth 2/3 and the random stream); range insert / push_back from a single-pass input iterator at every position; (iii'') argument forms (suffix ~f): emplace_back / emplace with rvalue, lvalue, temporary element, std::move of a named element, const element and several constructor arguments, insert / push_back with lvalue, const lvalue and temporary, std::swap, for the counting, move-only, plain, std::string (20-character values) and std::unique_ptr element types; capacities 66..260 filled completely; every state print also checks that each accessor (operator[], at, front, back, data, std::get, iterators, const and non-const) refers to the element in the container's own storage and walks the range by range-for, post-increment, iterator indexing and std algorithms; (iv) malformed stream (also positions before begin() with offsets 0 and 5, refused by the drivers); (v) corpus of the pre-repair witnesses; (vi) aliasing arguments: emplace(begin()+pos, v[k]) for every k relative to pos, emplace_back/insert/push_back(v[k]), v = v, v = std::move(v) (iterator ranges into the vector itself are outside the contract and not compared), from every fill level with pairwise distinct values, alone, before/after an ordinary operation and in pairs. A case is non-trivial when some object holds at least one "
+            "variants; (iii') every public constructor with fitting and non-fitting arguments: fixed_vector(capacity, iterable) with iterables of length 0..capacity+3 from std::vector, std::list, std::array, std::initializer_list and another fixed_vector, into an empty slot and over an existing object, for the counting, the throwing (every fault position) and the PLAIN trivially copyable std::int64_t element type (variant P, which also runs the exhaustive stream to depth 2/3 and the random stream); range insert / push_back from a single-pass input iterator at every position; (iii'') argument forms (suffix ~f): emplace_back / emplace with rvalue, lvalue, temporary element, std::move of a named element, const element and several constructor arguments, insert / push_back with lvalue, const lvalue and temporary, std::swap, for the counting, move-only, plain, std::string (20-character values) and std::unique_ptr element types; capacities 66..260 filled completely; every state print also checks that each accessor (operator[], at, front, back, data, std::get, iterators, const and non-const) refers to the element in the container's own storage and walks the range by range-for, post-increment, iterator indexing and std algorithms; (iii''') the element constructor invoked with the emplace_back / emplace arguments throws (suffix !c) — for element types with NOEXCEPT moves (C, M) and with potentially throwing moves (T, U), every argument form, fill level and position, followed by a retry / reuse of the slot and the destruction of the container; (iv) malformed stream (also positions before begin() with offsets 0 and 5, refused by the drivers); (v) corpus of the pre-repair witnesses; (vi) aliasing arguments: emplace(begin()+pos, v[k]) for every k relative to pos, emplace_back/insert/push_back(v[k]), v = v, v = std::move(v) (iterator ranges into the vector itself are outside the contract and not compared), from every fill level with pairwise distinct values, alone, before/after an ordinary operation and in pairs. A case is non-trivial when some object holds at least one "
             "element at some step; distinct = distinct case line.")
     modelled_note = ("modelled, not verified: object lifetimes and std::unique_ptr<T[]> (all `capacity` elements live as long as the array), element "
                      "assignment = value transfer (move leaves a moved-from element), a throwing assignment throws before changing anything, "
@@ -69,6 +69,9 @@ class C06(VecCheck):
         for v, cap in (("P", 70), ("C", 70), ("S", 66), ("Q", 66)) + ((("P", 260), ("C", 130)) if tier == "thorough" else ()):
             for c in large_cases(v, cap):
                 yield c, "large"
+        for v in (("C", "M", "T", "U") if "C06" in __name__ or tier == "thorough" else ("C", "M")):
+            for c in ctor_fault_cases(v, range(1, 4)):
+                yield c, "ctor-throws-" + v
         for c in exhaustive("C", caps, 3, True):
             yield c, "exh3-C"
         for c in exhaustive("M", caps, 3, True):
